@@ -1,5 +1,5 @@
 /- GENERATED on every run by harness/props/c10.py:extract from the AST of /repo
-   (avocado_i2n/cartgraph/node.py, avocado_i2n/plugins/runner.py) and from
+   (avocado_i2n/cartgraph/node.py, avocado_i2n/plugins/runner.py, avocado_i2n/cartgraph/graph.py) and from
    avocado.core.teststatus.STATUSES_MAPPING.  Do not edit. -/
 namespace I2N.Extracted.Rules
 def allStatuses : List String := ["fail", "error", "pass", "warn", "skip", "cancel", "interrupted", "unknown"]
@@ -22,5 +22,7 @@ def durationFactorDen : Nat := 4
 def passStatus : String := "PASS"
 def warnStatus : String := "WARN"
 def failingStatuses : List String := ["error", "fail"]
+def suiteFailWord : String := "FAIL"
+def prePrefix : String := "0"
 def statusesMapping : List (String × Bool) := [("SKIP", true), ("ERROR", false), ("FAIL", false), ("WARN", true), ("PASS", true), ("INTERRUPTED", false), ("CANCEL", true)]
 end I2N.Extracted.Rules
